@@ -122,6 +122,89 @@ func c09(c *Ctx) {
 	r.Check(len(prefixes) == 1, "C09.L2", "raftstore.LevelDBStore", "one stable-store prefix for all four methods", "-", stablePrefix, "the stable-store methods use different key prefixes: values written by one are invisible to the other")
 	r.Check(stablePrefix != "" && len(stablePrefix) != 8, "C09.L1", "raftstore.LevelDBStore", "prefix cannot be mistaken for a log key", "-", "length != 8", "a prefixed stable-store key could have the length of a log key")
 
+	// L1c: two kinds of keys and no third: whatever is written to the store's database is keyed by an 8-byte index key (a
+	// buffer filled with PutUint64, or the key the iterator stands on) or by stable-store prefix + key. FirstIndex / LastIndex
+	// skip exactly that one prefix; a record under any other key is taken for a log entry
+	{
+		nW := 0
+		for _, fi := range c.P.FuncsIn("raftstore") {
+			if fi.Body() == nil {
+				continue
+			}
+			info := fi.Info()
+			for _, call := range astx.Calls(fi.Body(), true) {
+				if !leveldbCall(info, call, "Put") || len(call.Args) < 2 {
+					continue
+				}
+				nW++
+				key := ast.Unparen(call.Args[0])
+				if sl, ok := key.(*ast.SliceExpr); ok && sl.Low == nil && sl.High == nil {
+					key = ast.Unparen(sl.X)
+				}
+				kind := ""
+				var classify func(e ast.Expr, depth int) string
+				classify = func(e ast.Expr, depth int) string {
+					e = ast.Unparen(e)
+					switch x := e.(type) {
+					case *ast.CallExpr:
+						if leveldbCall(info, x, "Key") {
+							return "index"
+						}
+						if astx.Builtin(info, x) == "append" && len(x.Args) >= 2 {
+							if conv, ok := ast.Unparen(x.Args[0]).(*ast.CallExpr); ok && astx.IsConversion(info, conv) && len(conv.Args) == 1 {
+								if s, ok := astx.ConstString(info, conv.Args[0]); ok {
+									if s == stablePrefix {
+										return "stable"
+									}
+									return "other prefix " + strconvQuote(s)
+								}
+							}
+						}
+						if astx.Builtin(info, x) == "make" {
+							return "buffer"
+						}
+					case *ast.Ident:
+						if depth > 3 {
+							return ""
+						}
+						obj := astx.Obj(info, x)
+						res := ""
+						for _, d := range defsOf(info, fi.Node(), obj) {
+							if d == nil {
+								continue
+							}
+							k := classify(d, depth+1)
+							if k == "buffer" {
+								// filled by PutUint64?
+								for _, c2 := range astx.Calls(fi.Body(), true) {
+									if _, m := endianOf(info, c2); m == "PutUint64" && len(c2.Args) == 2 {
+										if id, ok := ast.Unparen(c2.Args[0]).(*ast.Ident); ok && astx.Obj(info, id) == obj {
+											k = "index"
+										}
+									}
+								}
+							}
+							if k != "" && (res == "" || k != "index" && k != "stable") {
+								res = k
+							}
+						}
+						if res == "" {
+							// a parameter that the stable-store methods overwrite with the prefixed key
+							return ""
+						}
+						return res
+					}
+					return ""
+				}
+				kind = classify(key, 0)
+				r.Check(kind == "index" || kind == "stable", "C09.L1", fi.Name(), "what is written is keyed by an index key or by the stable-store prefix", c.P.Pos(call.Pos()), "key kind: "+kind,
+					"a record is written to the log database under a key that is neither an 8-byte index key nor stable-store prefix + key ("+kind+"): FirstIndex / LastIndex skip only the stable-store prefix and take it for a log entry — the last index becomes garbage and raft cannot load its log after a restart")
+			}
+		}
+		if nW < 4 {
+			r.Break("C09.L1: only %d writes to the store's database found", nW)
+		}
+	}
 	// index scans skip the same prefix
 	for _, name := range []string{"FirstIndex", "LastIndex", "ConvertToProto"} {
 		fi := method(name)
@@ -342,6 +425,101 @@ func c09(c *Ctx) {
 			return true
 		})
 		r.Check(nLoops >= 1, "C09.L2", fi.Name(), "iterates the entries", c.P.Pos(fi.Node().Pos()), "range logs", "StoreLogs does not iterate over the entries it is given")
+	}
+	// the writers produce one of the two encodings every reader knows: 'p' + protobuf, or bare JSON. A value stored under a
+	// third marker (compressed, versioned, …) is understood only by the readers that were taught about it — raftlog.FromBytes,
+	// the conversion on open, the snapshot and the log dump read the same database
+	for _, name := range []string{"StoreLogs", "StoreLogProto", "ConvertToProto"} {
+		fi := method(name)
+		if fi == nil || fi.Body() == nil {
+			continue
+		}
+		info := fi.Info()
+		for _, call := range astx.Calls(fi.Body(), false) {
+			if !leveldbCall(info, call, "Put") || len(call.Args) < 2 {
+				continue
+			}
+			val := ast.Unparen(call.Args[1])
+			kind := ""
+			if ap, ok := val.(*ast.CallExpr); ok && astx.Builtin(info, ap) == "append" && len(ap.Args) >= 2 {
+				if cl, ok := ast.Unparen(ap.Args[0]).(*ast.CompositeLit); ok && len(cl.Elts) == 1 {
+					if k, ok := astx.ConstInt(info, cl.Elts[0]); ok {
+						if k == 'p' {
+							kind = "p"
+						} else {
+							kind = "marker " + strconvQuote(string(rune(k)))
+						}
+					}
+				}
+			} else if id, ok := val.(*ast.Ident); ok {
+				kind = "json"
+				for _, d := range defsOf(info, fi.Node(), astx.Obj(info, id)) {
+					if d == nil {
+						continue
+					}
+					dc, isCall := ast.Unparen(d).(*ast.CallExpr)
+					if !isCall {
+						kind = "value of unknown origin"
+						continue
+					}
+					if fn := astx.Callee(info, dc); fn == nil || fn.Name() != "Marshal" || fn.Pkg() == nil || fn.Pkg().Path() != "encoding/json" {
+						kind = "value of unknown origin"
+					}
+				}
+			} else {
+				kind = "value of unknown origin"
+			}
+			r.Check(kind == "p" || kind == "json", "C09.L2", fi.Name(), "what is stored is 'p' + protobuf or bare JSON", c.P.Pos(call.Pos()), "encoding: "+kind,
+				"an entry is stored in an encoding other than the two every reader of the database understands ("+kind+"): GetLog may have been taught about it, but raftlog.FromBytes, the conversion on open, the snapshot and the log dump read the same values — the store cannot be reopened or the entry is skipped")
+		}
+	}
+	// the writers do not refuse what raft hands them: raft appends after a snapshot install, truncations and restarts, so the
+	// indexes need not continue the store's last one; an error return other than the encoder's or the database's makes a
+	// follower reject every further entry for good
+	for _, name := range []string{"StoreLogs", "StoreLogProto", "StoreLog"} {
+		fi := method(name)
+		if fi == nil || fi.Body() == nil {
+			continue
+		}
+		info := fi.Info()
+		g := c.Graph(fi)
+		okCallee := func(call *ast.CallExpr) bool {
+			fn := astx.Callee(info, call)
+			if fn == nil {
+				return false
+			}
+			if fn.Name() == "Marshal" || leveldbCall(info, call, "Write", "Put") {
+				return true
+			}
+			nm := fname(fn)
+			return nm == "StoreLogs" || nm == "StoreLogProto" || nm == "WriteBatch"
+		}
+		for _, rv := range g.Returns() {
+			rs := rv.Node.(*ast.ReturnStmt)
+			if len(rs.Results) != 1 {
+				continue
+			}
+			res := ast.Unparen(rs.Results[0])
+			ok := isNilIdent(info, res)
+			if call, isCall := res.(*ast.CallExpr); isCall && okCallee(call) {
+				ok = true
+			}
+			if id, isID := res.(*ast.Ident); isID && !ok {
+				defs := defsOf(info, fi.Node(), astx.Obj(info, id))
+				ok = len(defs) > 0
+				for _, d := range defs {
+					if d == nil {
+						continue
+					}
+					call, isCall := ast.Unparen(d).(*ast.CallExpr)
+					if !isCall || !okCallee(call) {
+						ok = false
+					}
+				}
+			}
+			r.Check(ok, "C09.L2", fi.Name(), "an entry is refused only when encoding or the database fails", c.P.Pos(rs.Pos()), "error result is nil, the encoder's or the database's",
+				"the store returns an error of its own making (a validation of indexes, sizes or types): raft hands it entries whose indexes need not continue the stored ones (after a snapshot was installed, after a truncation), so a follower rejects every further entry and silently stops receiving acknowledged messages")
+		}
 	}
 	// writers return the batch error
 	for _, name := range []string{"StoreLogs", "StoreLogProto", "DeleteRange", "WriteBatch"} {
@@ -977,3 +1155,5 @@ func marshalOfAny(info *types.Info, n ast.Node) int {
 	}
 	return k
 }
+
+func strconvQuote(s string) string { return "\"" + s + "\"" }
